@@ -1,6 +1,6 @@
 /* shared prelude of the C08 harnesses: ghost state is set from nondet locals (globals are zero-initialised, dfcc havocs statics) */
 #include "contracts/C08_split.h"
 int verif_exc;
-size_t g_vk, g_sk, g_wit, g_cand, g_pj, g_pstart, g_plen, g_nstart, g_joff, g_joff2; char g_oval; size_t g_obase, g_rk; size_t g_pjs, g_pjl, g_srcsize; const char* g_srcd;
-#define IN_GHOSTS size_t in_ok, in_sk, in_wit, in_cand, in_pj, in_pstart, in_plen, in_nstart, in_joff, in_joff2; g_joff = in_joff; g_joff2 = in_joff2; char in_oval; g_oval = in_oval; size_t in_obase, in_rk; g_obase = in_obase; g_rk = in_rk; size_t in_pjs, in_pjl, in_srcsize; g_pjs = in_pjs; g_pjl = in_pjl; g_srcsize = in_srcsize; const char* in_srcd; g_srcd = in_srcd; \
+size_t g_vk, g_sk, g_wit, g_cand, g_pj, g_pstart, g_plen, g_nstart, g_joff, g_joff2; char g_oval; size_t g_obase, g_rk; size_t g_pjs, g_pjl, g_srcsize; const char* g_srcd; char g_sval; size_t g_shift, g_inst;
+#define IN_GHOSTS size_t in_ok, in_sk, in_wit, in_cand, in_pj, in_pstart, in_plen, in_nstart, in_joff, in_joff2; g_joff = in_joff; g_joff2 = in_joff2; char in_oval; g_oval = in_oval; size_t in_obase, in_rk; g_obase = in_obase; g_rk = in_rk; size_t in_pjs, in_pjl, in_srcsize; g_pjs = in_pjs; g_pjl = in_pjl; g_srcsize = in_srcsize; const char* in_srcd; g_srcd = in_srcd; char in_sval; g_sval = in_sval; size_t in_shift; g_shift = in_shift; size_t in_inst; g_inst = in_inst; \
   g_vk = in_ok; g_sk = in_sk; g_wit = in_wit; g_cand = in_cand; g_pj = in_pj; g_pstart = in_pstart; g_plen = in_plen; g_nstart = in_nstart
